@@ -111,7 +111,13 @@ func VerifC16Middleware() {
 		// the conversion is asked for exactly the received amount of the voucher, for the packet's receiver - whatever
 		// vouchers the receiver held before
 		amt, _ := sdk.NewIntFromString(data.Amount)
-		denom, _ := types.IBCDenom(packet.GetDestPort(), packet.GetDestChannel(), data.Denom)
+		// the voucher the ICS-20 application credits for a coin that does not return to its source (ibc-go relay.go), written
+		// out here instead of calling the module's own IBCDenom; returning coins (the denomination starts with the SOURCE
+		// port/channel) are outside this obligation
+		denom := transfertypes.ParseDenomTrace(transfertypes.GetDenomPrefix(packet.GetDestPort(), packet.GetDestChannel()) + data.Denom).IBCDenom()
+		if transfertypes.ReceiverChainIsSource(packet.GetSourcePort(), packet.GetSourceChannel(), data.Denom) {
+			return
+		}
 		want, wantErr := sdk.AccAddressFromBech32(data.Receiver)
 		got, gotErr := sdk.AccAddressFromBech32(asked.Sender)
 		rt.Assert("M4-converts-exactly-the-received-amount", asked.Coin.Denom == denom && asked.Coin.Amount.Equal(amt) && (wantErr != nil || gotErr == nil && got.Equals(want)))
